@@ -565,7 +565,7 @@ Proof.
   intros Hsz H Hp. cbn [v_seek] in H. destruct s as [p|pos ts ss]; [now injection H as _ <-|].
   cbn [v_tell] in Hp.
   set (np := clamp_pos size ((if wh =? 1 then pos else if wh =? 2 then size else 0) + off)) in *.
-  assert (Hnp : 0 <= np) by (unfold np, clamp_pos; destruct (_ >? size); [lia|]; destruct (_ <? 0) eqn:E0; lia).
+  assert (Hnp : 0 <= np) by (unfold np, clamp_pos; destruct (_ && _); [lia|]; destruct (_ <? 0) eqn:E0; lia).
   destruct (translate k size 0 np) as [ta|e|]; [|injection H as _ <-; cbn; lia|injection H as _ <-; cbn; lia].
   destruct (v_seek sub ss ta 0) as [r0 ss'].
   destruct r0; injection H as _ <-; cbn [v_tell]; lia.
